@@ -100,10 +100,14 @@ pub(crate) fn validate_subscription(
     }
 
     let mut field_names = vec![];
+    // Selections with the same response key are merged into one entry of the grouped field set
+    let mut response_keys = HashSet::default();
 
     let walked = walk_selections(document, &operation.selection_set, |selection| {
         if let executable::Selection::Field(field) = selection {
-            field_names.push(field.name.clone());
+            if response_keys.insert(field.response_key()) {
+                field_names.push(field.name.clone());
+            }
             if matches!(field.name.as_str(), "__type" | "__schema" | "__typename") {
                 diagnostics.push(
                     field.location(),
